@@ -619,6 +619,9 @@ class C04(SimCheck):
             ref_case["cfg"]["duration"] = None
             ref_case["cfg"]["maxIter"] = len(ex) + 12
             ref_case["drive"] = {"mode": "start"}
+            if case.get("between"):
+                # an external controller acts between steps: the reference run is stepped as well
+                ref_case["drive"] = {"mode": "steps", "n": max(case["drive"].get("n", 0), len(ex) + 14)}
             ref = simimpl.run_impl(ref_case, None, draw_seed=case.get("seed", 0))
             rex = [ts for _, ts in afters(ref["trace"])]
             expected = []
